@@ -11,18 +11,22 @@ import (
 
 func zzC06FS() *zzFS {
 	return newZZFS(map[string]string{
-		"card.vuego": `<div class="card"><header><slot name="h">FB-H</slot></header><main><slot>FB-D</slot></main><footer><slot name="f" :x="n" :y="m">FB-F</slot></footer></div>`,
-		"list.vuego": `<ul><li v-for="it in items"><slot :item="it" :pos="it">FB-{{ it }}</slot></li></ul>`,
+		"card.vuego":  `<div class="card"><header><slot name="h">FB-H</slot></header><main><slot>FB-D</slot></main><footer><slot name="f" :x="n" :y="m">FB-F</slot></footer></div>`,
+		"list.vuego":  `<ul><li v-for="it in items"><slot :item="it" :pos="it">FB-{{ it }}</slot></li></ul>`,
 		"panel.vuego": `<div class="panel"><header><slot name="h" :outer="heading" :k="heading">FB-H-{{ outer }}</slot></header><main><slot>FB-D-{{ outer }}</slot></main><footer>{{ outer }}|<slot name="f">FB-F-{{ outer }}</slot></footer></div>`,
-		"rows.vuego": `<ul><li v-for="it in rows"><slot :id="it.id" :label="it.label">fb</slot></li></ul>`,
-		"wrap.vuego": `<section class="wrap"><template include="card.vuego"><template v-slot:h>INNER-H</template></template><slot>FB-WRAP</slot></section>`,
+		"rows.vuego":  `<ul><li v-for="it in rows"><slot :id="it.id" :label="it.label">fb</slot></li></ul>`,
+		"flags.vuego": `<ul><li v-for="row in rows"><slot :row="row">fb</slot></li></ul>`,
+		"twice.vuego": `<section><slot></slot><i>+</i><slot></slot></section>`,
+		"leaf.vuego":  `<em>{{ p + 1 }}</em>`,
+		"wrap.vuego":  `<section class="wrap"><template include="card.vuego"><template v-slot:h>INNER-H</template></template><slot>FB-WRAP</slot></section>`,
 	})
 }
 
 // how the includer supplies content for a slot
-//   default slot: 0 nothing, 1 plain children, 2 <template v-slot>, 3 <template v-slot:default>, 4 <template #default>
-//   header slot : 0 nothing, 1 <template v-slot:h>, 2 <template #h>
-//   footer slot : 0 nothing, 1 scoped by name (#f="p"), 2 scoped v-slot:f="p"
+//
+//	default slot: 0 nothing, 1 plain children, 2 <template v-slot>, 3 <template v-slot:default>, 4 <template #default>
+//	header slot : 0 nothing, 1 <template v-slot:h>, 2 <template #h>
+//	footer slot : 0 nothing, 1 scoped by name (#f="p"), 2 scoped v-slot:f="p"
 func zzC06Include(dflt, hdr, ftr int, tag string) (src string, wantD, wantH, wantF string) {
 	wantD, wantH, wantF = "FB-D", "FB-H", "FB-F"
 	src = `<template include="card.vuego" :n="nv" m="` + tag + `">`
@@ -58,11 +62,6 @@ func zzC06Include(dflt, hdr, ftr int, tag string) (src string, wantD, wantH, wan
 	}
 	src += `</template>`
 	return
-}
-
-func zzFlat(s string) string {
-	// white space introduced by the serialiser is insignificant
-	return strings.Join(strings.Fields(s), "")
 }
 
 // VerifC06_Slots: every subset of supplied slots in every form, dynamic
@@ -104,7 +103,7 @@ func VerifC06_Slots() {
 // VerifC06_Loop: a slot inside a loop is filled once per iteration with that
 // iteration's props; a component nested in a component keeps its own slots.
 func VerifC06_Loop() {
-	mode := zzChoice("mode", 6)
+	mode := zzChoice("mode", 8)
 	var body, want string
 	data := map[string]any{"outer": "OUT", "items": []string{"a", "b"}, "nv": 9}
 	switch mode {
@@ -166,6 +165,55 @@ func VerifC06_Loop() {
 		} else {
 			body = `<template include="rows.vuego"><template v-slot="s">[{{ s.id }}:{{ s.label }}]</template></template>`
 		}
+	case 6: // supplied content with directives that depend on the iteration's props
+		var rows []any
+		want = `<ul>`
+		for r := 1; r <= 3; r++ {
+			on := zzBool("on")
+			rows = append(rows, map[string]any{"id": r, "on": on})
+			hidden := ""
+			if !on {
+				hidden = "H"
+			}
+			want += `<li>` + string(rune('0'+r)) + hidden + `</li>`
+		}
+		want += `</ul>`
+		data["rows"] = rows
+		body = `<template include="flags.vuego"><template #default="p"><b style="color:red" v-show="p.row.on" :title="p.row.id">{{ p.row.id }}</b></template></template>`
+		out, err := zzRender(NewFS(zzC06FS()), body, data)
+		zzNote("template", body)
+		zzNote("out", out)
+		zzAssert(err == nil, "C06.loop.render-error")
+		// reduce every iteration to its id and whether it is hidden
+		got := `<ul>`
+		rest := out
+		for {
+			p := strings.Index(rest, "<li>")
+			if p < 0 {
+				break
+			}
+			q := strings.Index(rest[p:], "</li>")
+			seg := rest[p : p+q]
+			rest = rest[p+q:]
+			id := ""
+			if t := strings.Index(seg, `title="`); t >= 0 {
+				id = seg[t+7 : t+8]
+			}
+			hidden := ""
+			if strings.Contains(seg, "display:none") {
+				hidden = "H"
+			}
+			zzAssert(strings.Contains(seg, "color:red"), "C06.loop.static-style-kept")
+			got += `<li>` + id + hidden + `</li>`
+		}
+		got += `</ul>`
+		zzNote("want", want)
+		zzNote("got", got)
+		zzAssert(got == want, "C06.loop.per-iteration-and-nesting")
+		return
+	case 7: // a slot used twice gets the same content twice (bound props keep their bindings and types)
+		body = `<template include="twice.vuego"><template include="leaf.vuego" :p="nv"></template><b :title="outer">{{ nv + 1 }}</b></template>`
+		want = `<section><em>10</em><b title="OUT">10</b><i>+</i><em>10</em><b title="OUT">10</b></section>`
 	case 3: // nested component, nothing supplied to the wrapper
 		body = `<template include="wrap.vuego"></template>`
 		want = `<section class="wrap"><div class="card"><header>INNER-H</header><main>FB-D</main><footer>FB-F</footer></div>FB-WRAP</section>`
